@@ -591,3 +591,60 @@ def run(ctx):
                     return
 
     drive.for_each_case(ctx, 'main', ctx.budget, body, gen=lambda c, r: Ty('int'), seconds=40)
+
+    # arguments that are themselves subscripted generics (Envelope[Ok[int]] beside Envelope[Ok[str]]): substitution reaches every depth
+    # and each parametrisation keeps its own argument
+    from .. import special
+
+    def body_nesting(i, rng, ty, T):
+        for desc, TT, v, must in special.generic_nesting_case(rng):
+            out = observe(env.from_data, v, TT)
+            ctx.count('generic_nesting_rows')
+            ctx.case(('generic-nesting', desc.split('<-')[1], must, out.kind), nontrivial=True)
+            if out.kind == 'escape' or (out.kind == 'value') != must:
+                ctx.violation('conversion-enforces-substituted-types', 'nesting', i, {'case': desc, 'type': short(TT, 200), 'value': short(v, 150), 'must_accept': must,
+                                                                                  'pane': out.brief()}, mech='nested-generic-argument-confused')
+                return
+
+    drive.for_each_case(ctx, 'nesting', 60, body_nesting, gen=lambda c, r: Ty('int'))
+
+    # a field redeclared PLAINLY by a subclass is a new field: the parent's alias, exclusion, keyword-only flag and field converter go;
+    # and a field with `converter=` still has its type variables substituted (signature, constructor)
+    def body_field_options(i, rng, ty, T):
+        import types as _types
+        TV = t.TypeVar('TV')
+        passthrough = probe_converter('FC')
+        Base = type(f"FOB{next(_serial)}", (env.PaneBase,), {'__annotations__': {'a': int, 'opt': str}, '__module__': __name__,
+                                                              'opt': env.pfield(default='d', aliases=('OLD',), kw_only=True, exclude=rng.random() < 0.5)})
+        Child = type(f"FOC{next(_serial)}", (Base,), {'__annotations__': {'opt': int}, 'opt': 7, '__module__': __name__})
+        ctx.count('redeclared_field_option_checks')
+        sig = list(inspect.signature(Child).parameters.values())
+        names_kinds = [(p_.name, p_.kind == p_.KEYWORD_ONLY) for p_ in sig]
+        o_alias = observe(Child.from_data, {'a': 1, 'OLD': 3})
+        o_plain = observe(Child.from_data, {'a': 1, 'opt': 3})
+        o_pos = observe(Child, 1, 3)
+        d = observe(lambda: Child(1, 3).into_data())
+        bad = []
+        if names_kinds != [('a', False), ('opt', False)]: bad.append(f"signature {names_kinds}")
+        if o_alias.kind == 'value': bad.append("the parent's alias still binds the redeclared field")
+        if o_plain.kind != 'value' or o_plain.val.opt != 3: bad.append(f"plain name refused: {o_plain.brief()}")
+        if o_pos.kind != 'value': bad.append(f"positional construction refused: {o_pos.brief()}")
+        if d.kind != 'value' or d.val != {'a': 1, 'opt': 3}: bad.append(f"into_data {d.brief()}")
+        if bad:
+            ctx.violation('effective-fields-and-order', 'field-options', i, {'parent_field': "opt: str = field(default='d', aliases=('OLD',), kw_only=True, exclude=?)",
+                                                                            'child_redeclares': 'opt: int = 7', 'problems': bad}, mech='redeclared-field-keeps-parent-options')
+            return
+        G = _types.new_class(f"FOG{next(_serial)}", (env.PaneBase, t.Generic[TV]), {}, lambda ns: ns.update({
+            '__annotations__': {'label': str, 'vals': t.List[TV]}, '__module__': __name__, 'vals': env.pfield(converter=passthrough)}))
+        GI = G[int]
+        Sub = _types.new_class(f"FOS{next(_serial)}", (G[TV],), {}, lambda ns: ns.update({'__annotations__': {}, '__module__': __name__}))
+        ctx.count('converter_field_substitution_checks')
+        for cls_, label in ((GI, 'G[int]'), (Sub[float], 'Sub(G[TV])[float]')):
+            ann = inspect.signature(cls_).parameters['vals'].annotation
+            want = t.List[int] if label == 'G[int]' else t.List[float]
+            if not same_type(ann, want):
+                ctx.violation('type-variable-substitution', 'field-options', i, {'class': label, 'field': 'vals: List[TV] = field(converter=...)', 'annotation': short(ann),
+                                                                                'expected': short(want)}, mech='converter-field-not-substituted')
+                return
+
+    drive.for_each_case(ctx, 'field-options', 40, body_field_options, gen=lambda c, r: Ty('int'))
